@@ -171,6 +171,7 @@ func Main(args []string) int {
 var schistMins = map[string]map[string]int64{
 	"C48": {"gf_stored_values_judged": 300},
 	"C01": {"genesis_supply_checked": 4},
+	"C12": {"delete_marker_above_outstanding_value": 50},
 }
 
 func firstPanicLine(log string) string {
